@@ -471,3 +471,104 @@ def function_names(ctx):
         c.status = 'reproduced' if r['rc'] != 0 and b'unknwon' in r['stderr'] else 'unit'
     else:
         fam.add_sample({'names': names[:12], 'verdict': 'each read back whole'})
+
+
+# ---------------------------------------------------------------- Titles and the --set collection
+def titles(ctx):
+    """Titles::with_title appends exactly one name (a repeated name included): N selections give N columns"""
+    run = ctx.run
+    fam = run.family('text.titles', 'Titles::with_title keeps the names given so far and appends the new one, whatever it is (a repeated name is still a column); len() is the number of names')
+    from .scen_ctx import SUMM as CSUMM
+    PR = r'^processor::<impl at [^>]*>::'
+    ex = ctx.exec(summaries=CSUMM + [(r'Vec::<.*>::contains$|impl \[.*\]>::contains$', lambda ex, st, f, a, t: None)], max_visits=10)
+    TI = ctx.structs['Titles']
+    F = ex.find(PR + 'with_title$'); L = ex.find(PR + 'len$') if False else None
+    for n, new in ((0, 'NEW'), (1, 'NEW'), (2, 'NEW'), (1, 'T0'), (2, 'T1')):
+        st = State(); so = st.new_obj('self', 'Titles')
+        st.heap[so][('f', None, TI.index('titles'))] = seqobj(st, 'Vec', [named(st, f'T{i}', 'Rc<String>') for i in range(n)])
+        ex.new_frame(st, F, [slot(st, ObjV(so), 'self*'), slot(st, named(st, new, 'Rc<String>'), 't*')])
+        for d in ex.run(st):
+            run.paths += 1
+            if d.status == 'infeasible': continue
+            fam.obligations += 1; fam.witnesses += 1
+            why = None
+            if d.status != 'returned': why = f'{d.status} {d.notes[-1:]}'
+            else:
+                try:
+                    got = [origin(d, x) for x in model(d, d.heap[obj(d, d.ret).oid][('f', None, TI.index('titles'))])]
+                    if got != [f'T{i}' for i in range(n)] + [new]: why = f'titles {[f"T{i}" for i in range(n)]} + {new} gives {got}'
+                except Exception as e:
+                    why = f'result not readable ({e})'
+            if why is None: fam.discharged += 1
+            elif not fam.candidates: fam.candidates.append(Candidate(fam.name, 'with-title', f'Titles::with_title: {why}', {}, unmodelled=(d.havoc or [None])[0]))
+    run.absorb(ex)
+    from .cli import run_jawk, show
+    for c in fam.candidates:
+        r = run_jawk(ctx, ['-o', 'csv', '--select', '.a=x', '--select', '.b=x', '--select', '.c=y'], b'{"a":1,"b":2,"c":3}')
+        exp = '"x", "x", "y"\n1, 2, 3\n'
+        c.replay = {'argv': ['-o', 'csv', '--select', '.a=x', '--select', '.b=x', '--select', '.c=y'], 'stdin': '{"a":1,"b":2,"c":3}', 'expected': exp, 'actual': show(r['stdout'])}
+        c.status = 'reproduced' if show(r['stdout']) != exp else 'unit'
+
+
+def preset_collection(ctx):
+    """<Vec<String> as PreSetCollection>::create_process: a name defined twice (variable or macro) is an error whatever
+    the two values are; nothing is wrapped for an empty list"""
+    run = ctx.run
+    fam = run.family('set.duplicates', '--set rejects a name that is defined twice - as a variable or as a macro - whatever the values, and accepts distinct names')
+    PS = ctx.structs['PreSet']; VAL = ctx.enums['Value']
+    def s_from_str(ex, st, func, args, ty):
+        src = origin(st, args[0])        # 'set0' / 'set1'
+        i = int(src[-1])
+        out = []
+        for kind in ('Calculated', 'Macro'):
+            s2 = st.clone(); s2.events.append(('parsed', i, kind))
+            o = named(s2, s2.fresh_name('preset'), 'PreSet')
+            s2.heap[o.oid][('f', None, PS.index('key'))] = named(s2, 'KEY_' + KEYS[i], 'String')
+            s2.heap[o.oid][('f', None, PS.index('value'))] = mk_enum(s2, 'Value', VAL.index(kind), kind, (named(s2, f'VAL{i}', 'JsonValue' if kind == 'Calculated' else 'Rc<dyn Get>'),))
+            out.append((s2, ok(s2, o)))
+        return out
+    def s_insert(ex, st, func, args, ty):
+        mp = obj(st, args[0]); k = origin(st, args[1]); items = list(st.heap[mp.oid].get('model', ()))
+        for j, (kk, vv) in enumerate(items):
+            if kk == k:
+                items[j] = (k, args[2]); st.heap[mp.oid]['model'] = tuple(items); return [(st, some(st, vv))]
+        st.heap[mp.oid]['model'] = tuple(items + [(k, args[2])]); return [(st, none(st))]
+    def s_val_eq(ex, st, func, args, ty):
+        out = []
+        for v in (True, False):
+            s2 = st.clone(); out.append((s2, BoolV(z3.BoolVal(v))))
+        return out
+    summ = [(r'<PreSet as FromStr>::from_str$|<pre_sets::PreSet as FromStr>::from_str$', s_from_str), (r'HashMap::<.*>::new$', s_seq_new), (r'HashMap::<.*>::insert$', s_insert),
+            (r'<std::string::String as Clone>::clone$|<JsonValue as Clone>::clone$|<Rc<.*> as Clone>::clone$', s_clone_shared), (r'Rc::<.*>::new$|Box::<.*>::new$', s_identity),
+            (r'Vec::<.*>::is_empty$', s_seq_is_empty), (r'<&Vec<.*> as IntoIterator>::into_iter$|impl \[.*\]>::iter$', s_iter_ref), (r'as Iterator>::next$', s_iter_next),
+            (r'as Deref>::deref$|String::as_str$', s_identity), (r'<JsonValue as PartialEq>::(eq|ne)$|<&JsonValue as PartialEq>::(eq|ne)$|Rc::<.*>::ptr_eq$', s_val_eq)]
+    ex = ctx.exec(summaries=summ, max_visits=12)
+    F = ex.find(r'^pre_sets::<impl at [^>]*>::create_process$')
+    global KEYS
+    for KEYS in (['a', 'a'], ['a', 'b'], ['a']):
+        st = State()
+        lst = seqobj(st, 'Vec', [named(st, f'set{i}', 'String') for i in range(len(KEYS))])
+        ex.new_frame(st, F, [slot(st, lst, 'self*'), named(st, 'NEXT', 'Box<dyn Process>')])
+        for d in ex.run(st):
+            run.paths += 1
+            if d.status == 'infeasible': continue
+            fam.obligations += 1; fam.witnesses += 1
+            kinds = [e[2] for e in d.events if e[0] == 'parsed']
+            why = None
+            if d.status != 'returned': why = f'{d.status} {d.notes[-1:]}'
+            else:
+                rd = cval(ex.discr(d, obj(d, d.ret)).t)
+                dup = len(KEYS) == 2 and KEYS[0] == KEYS[1] and len(kinds) == 2 and kinds[0] == kinds[1]
+                if dup and rd != 1: why = f'the name `a` defined twice as {kinds[0]} is accepted'
+                if not dup and len(kinds) == len(KEYS) and rd != 0: why = f'distinct definitions {list(zip(KEYS, kinds))} are rejected'
+            if why is None: fam.discharged += 1
+            elif not any(c.role == 'dup-' + str(kinds) for c in fam.candidates):
+                fam.candidates.append(Candidate(fam.name, 'dup-' + str(kinds), f'--set collection: {why}', {'kinds': kinds}, unmodelled=(d.havoc or [None])[0]))
+    run.absorb(ex)
+    from .cli import run_jawk, show
+    for c in fam.candidates:
+        c.status = 'unit'
+        for argv in (['--set', 'a=1', '--set', 'a=1'], ['--set', 'a=2', '--set', 'a=(+ 1 1)'], ['--set', '@m=1', '--set', '@m=1'], ['--set', 'a=1', '--set', 'a=2']):
+            r = run_jawk(ctx, argv, b'1')
+            if r['rc'] == 0:
+                c.replay = {'argv': argv, 'rc': 0, 'stdout': show(r['stdout'])}; c.status = 'reproduced'; break
